@@ -240,7 +240,7 @@ Proof.
   rewrite mutual_id by (intros a r Ha _ Ka _; apply in_app_or in Ha as [Ha|Ha]; apply in_map_iff in Ha as (x & <- & _); discriminate).
   destruct (set_delta T1 T2 q (sadded xs ys) (sremoved xs ys)) as (E1 & E2 & E3 & E4 & E5 & E6 & E7 & E8 & E9 & E10).
   set (d := to_delta conv bidir always ops T1 T2 (map (addE q) (sadded xs ys) ++ map (remE q) (sremoved xs ys)) []) in *.
-  split; [exact E7|]. intros v Wv Vv.
+  split; [exact E7|]. intros v Wv Vv _.
   apply veqb_set_inv in Vv as (xb & -> & Lb & I1 & I2).
   assert (Nb : nodup_atoms xb = true) by (destruct fr; exact Wv).
   destruct (sresb_spec xb xs ys Nb (fun z => conj (I1 z) (I2 z)) Ny AF) as [Hin Hnd].
